@@ -161,6 +161,7 @@ type cdnWorld struct {
 	servedHashes map[int64]bool
 	corrupt      int   // corrupted responses delivered
 	firstCut     int64 // absolute end of the first shortened response, -1
+	shape        string
 	fired        bool
 	applicable   bool
 	eventsFired  map[string]int
@@ -489,6 +490,18 @@ func (w *cdnWorld) adversary(ord int, off int64, limit int, plain []byte, k *cdn
 	}
 	w.applicable = true
 	w.corrupt++
+	if w.shape == "" {
+		// how the first corrupted answer differs from the honest one: this, not the
+		// (schedule-dependent) shape of the output, classifies an acceptance
+		switch {
+		case len(out) < len(honest):
+			w.shape = "shortened-answer"
+		case len(out) > len(honest):
+			w.shape = "lengthened-answer"
+		default:
+			w.shape = "same-length-" + strategyFamily(cs.Strategy)
+		}
+	}
 	if len(out) < len(honest) && w.firstCut < 0 {
 		w.firstCut = off + int64(len(out))
 	}
